@@ -197,7 +197,7 @@ def _mtype(b):
 
 
 def shards(tier):
-    n = 400 if tier == 'quick' else 4000
+    n = 400 if tier == 'quick' else 40000
     return [{'name': 'stop-%d' % i, 'kind': 'hyp', 'examples': n, 'hypothesis': True} for i in range(8 if tier == 'quick' else 16)]
 
 
